@@ -376,7 +376,9 @@ func (b *TableColumnGroupBox) span() int {
 func (b *TableColumnGroupBox) defaultGetCells() []Box {
 	var out []Box
 	for _, column := range b.Box().Children {
-		out = append(out, column.Box().GetCells()...)
+		if getCells := column.Box().GetCells; getCells != nil { // set up during the table layout
+			out = append(out, getCells()...)
+		}
 	}
 	return out
 }
